@@ -84,11 +84,18 @@ theorem step_one_conn (s : State) (ev : Ev) (h : OneConnPerKey s) : OneConnPerKe
         · rename_i hf
           exact find_none hf x hx hk
       · intro c1 h1 c2 h2 hk; exact h c1 h1 c2 h2 hk
-  | newConn r =>
+  | newConn r lis =>
     simp only [step]
-    cases hf : find s.conns (r, none) with
+    cases hl : lookupKey s.conns r lis with
     | some c => exact h
-    | none => exact happend _ (fun x hx => find_none hf x hx)
+    | none =>
+      apply happend
+      intro x hx hk
+      unfold lookupKey at hl
+      split at hl
+      · cases hl
+      · rename_i hf
+        exact find_none hf x hx hk
   | closePeer r loc =>
     simp only [step]
     cases hl : lookupKey s.conns r loc with
@@ -154,10 +161,10 @@ theorem step_other (B : Nat) (s : State) (ev : Ev) (h : evRemote ev ≠ B) : cor
       split
       · simp only [core]; rw [happ _ _ (by simpa using h)]
       · simp only [core]; rw [happ _ _ (by simpa using h)]
-  | newConn r =>
+  | newConn r lis =>
     simp only [evRemote] at h
     simp only [step]
-    cases hf : find s.conns (r, none) with
+    cases hl : lookupKey s.conns r lis with
     | some c => rfl
     | none => simp only [core]; rw [happ _ _ (by simpa using h)]
   | closePeer r loc =>
@@ -197,11 +204,11 @@ theorem step_same (B : Nat) (s1 s2 : State) (ev : Ev) (hr : evRemote ev = B) (h 
       split
       · simp only [core]; rw [part_append, part_append, hc, hcl]
       · simp only [core]; rw [part_append, part_append, hc, hcl]
-  | newConn r =>
+  | newConn r lis =>
     simp only [evRemote] at hr
     subst hr
-    simp only [step, hfind]
-    cases hf : find s2.conns (r, none) with
+    simp only [step, hlook]
+    cases hl : lookupKey s2.conns r lis with
     | some c => simp only [core, hc, hcl]
     | none => simp only [core]; rw [part_append, part_append, hc, hcl]
   | closePeer r loc =>
